@@ -15,12 +15,23 @@ CRATES = {
             ("src/compression/compress.rs", "mpq/compress.rs", "verif_kani_compress", ""),
             ("src/archive.rs", "mpq/archive_fab.rs", "verif_kani_archive", "pub(crate)"),
             ("src/builder.rs", "mpq/builder_path.rs", "verif_kani_builder_path", ""),
+            ("src/modification.rs", "mpq/modification.rs", "verif_kani_modification", ""),
+            ("src/builder.rs", "mpq/builder_layout.rs", "verif_kani_builder_layout", ""),
+            ("src/crypto/signature.rs", "mpq/signature.rs", "verif_kani_signature", ""),
+            ("src/patch/apply.rs", "mpq/patch_apply.rs", "verif_kani_patch", ""),
+            ("src/compression/algorithms/rle.rs", "mpq/rle.rs", "verif_kani_rle", ""),
         ],
         "prepend": [("src/lib.rs", "#![cfg_attr(kani, feature(read_buf, core_io_borrowed_buf))]")],
     },
     "cdbc": {
         "dir": "file-formats/database/wow-cdbc",
         "attach": [("src/writer.rs", "cdbc/writer.rs", "verif_kani_writer", "")],
+        "kani_args": ["--lib"],
+    },
+    "ffi": {
+        "dir": "ffi/storm-ffi",
+        "attach": [("src/lib.rs", "ffi/storm.rs", "verif_kani_storm", "")],
+        "kani_args": ["--lib"],
     },
     "wdt": {
         "dir": "file-formats/world-data/wow-wdt",
@@ -217,25 +228,29 @@ _BP = "verif_kani_builder_path"
 _pathfns = ["builder::ArchiveBuilder::write_file", "builder::ArchiveBuilder::add_to_hash_table", "builder::ArchiveBuilder::calculate_file_key",
             "builder::ArchiveBuilder::encrypt_data", "archive::Archive::read_file", "archive::Archive::find_file", "tables::HashTable::find_file",
             "archive::decrypt_file_data", "crypto::hash_string"]
-H("C01", "mpq", _BP, "quick", "C01.d writer->reader data path, single-unit files, all flag combinations",
-  ["c01d_single_unit_plain_n5", "c01d_single_unit_codec_n5", "c01d_single_unit_encrypted_n5", "c01d_single_unit_encrypted_codec_n5",
+H("C01", "mpq", _BP, "quick", "C01.d writer->reader data path, single-unit file, per configuration (plain / abstract codec / encrypted / fix-key)",
+  ["c01d_su_plain", "c01d_su_codec_shrinks", "c01d_su_codec_noshrink", "c01d_su_enc", "c01d_su_enc_fix", "c01d_su_enc_codec", "c01d_su_enc_fix_codec",
    "c01d_empty_file", "c01d_absent_name_not_found"], _pathfns,
-  "file content [u8; 5] symbolic (0 and 3 bytes in the edge cases); CRC flag, FIX_KEY flag, codec outcome and payload symbolic; lookup under a different case/slash spelling",
+  "file content [u8; 5] symbolic (0 and 3 bytes in the edge cases), codec payload symbolic; configuration flags concrete per harness; lookup under a different case/slash spelling of the stored name",
   "one file of 5 bytes at archive offset 32, 4-slot hash table, sector size 512, V1 classic tables fabricated in memory",
   stubs=[FMT, MEMFILE, CODEC], abstraction_stubs=["compress", "decompress"], timeout=900)
+H("C01", "mpq", _BP, "thorough", "C01.d single-unit file with sector checksum (real Adler-32 over symbolic bytes)",
+  ["c01d_su_plain_crc", "c01d_su_codec_crc", "c01d_su_enc_crc", "c01d_su_enc_fix_codec_crc"], _pathfns,
+  "file content [u8; 5] symbolic, CRC on", "as above", stubs=[FMT, MEMFILE, CODEC], abstraction_stubs=["compress", "decompress"], timeout=2400)
 H("C01", "mpq", _BP, "quick", "canary", ["c01d_canary"], _pathfns, "vacuity twin", "-", expect="canary", stubs=[FMT, MEMFILE])
 
 # =============================================================================== C17
 RS = "std::hash::RandomState::new -> fixed SipHash keys (1,2) (environment model; HashMap keys are concrete)"
 _D = "verif_kani_writer"
 H("C17", "cdbc", _D, "quick", "C17.a field codec: write_value(parse_field_value(b)) == b and both move FieldType::size() bytes",
-  ["c17a_field_codec"], ["field_parser::parse_field_value", "writer::DbcWriter::write_value", "schema::FieldType::size"],
-  "field type (9 values) symbolic, 4 content bytes symbolic", "one scalar field (String fields: c17c)", stubs=[FMT, RS])
+  ["c17a_field_codec_%s" % t for t in ("int32", "uint32", "float32", "bool", "uint8", "int8", "uint16", "int16")],
+  ["field_parser::parse_field_value", "writer::DbcWriter::write_value", "schema::FieldType::size"],
+  "one harness per scalar field type, 4 content bytes symbolic", "one scalar field (String fields resolve through the string block: thorough)", stubs=[FMT, RS], timeout=900)
 H("C17", "cdbc", _D, "quick", "C17.b header the writer emits is accepted by the reader's validation of the same schema; size law for the empty table",
   ["c17b_header_accepted_1_field", "c17b_header_accepted_2_fields", "c17b_header_accepted_3_fields"],
   ["writer::DbcWriter::write_records", "writer::DbcWriter::build_string_block", "header::DbcHeader::parse", "schema::Schema::validate", "schema::Schema::record_size"],
   "schema of 1/2/3 fields, each field type symbolic, each scalar or array of 1..3 (symbolic)", "<= 3 fields, array sizes <= 3, zero records",
-  stubs=[FMT, RS])
+  stubs=[FMT, RS], timeout=2400)
 H("C17", "cdbc", _D, "quick", "canary", ["c17_canary"], ["field_parser::parse_field_value"], "vacuity twin", "-", expect="canary", stubs=[FMT, RS])
 H("C05", "cdbc", _D, "quick", "C05.dbc header parsers and string lookups are total (no panic/overflow), derived offsets do not overflow",
   ["c05_dbc_header_total", "c05_dbc_wdb2_header_total", "c05_dbc_wdb5_header_total", "c05_dbc_string_block_total"],
@@ -243,6 +258,113 @@ H("C05", "cdbc", _D, "quick", "C05.dbc header parsers and string lookups are tot
    "versions::Wdb5Header::{parse,string_block_offset,total_size}", "stringblock::StringBlock::{parse,get_string}"],
   "header bytes fully symbolic behind the assigned magic (20/48/48 bytes, symbolic truncation for WDBC); string block of 5 symbolic bytes, offset u32 symbolic",
   "header-sized inputs; 5-byte string block", stubs=[FMT])
+
+# =============================================================================== C06
+HS = "crypto::hash_string -> symbolic function H[name][hash type] over the names a..d (abstraction: decided for every assignment of hash values, i.e. every collision pattern and home slot)"
+_M = "verif_kani_modification"
+_c06f = ["modification::MutableArchive::find_file_entry", "modification::MutableArchive::remove_file", "modification::MutableArchive::rename_file",
+         "modification::MutableArchive::add_to_hash_table", "modification::MutableArchive::remove_from_listfile", "modification::MutableArchive::update_listfile"]
+_c06in = ("arbitrary 4-slot hash table (each slot never-used / deleted / valid entry of one of 4 names, block indices symbolic) satisfying the "
+          "representation invariant; hash values H[4 names][3 types] fully symbolic; operation arguments symbolic")
+_c06as = ["representation invariant I: a name occupies at most one slot; every valid entry is reachable from its home slot without crossing a never-used slot",
+          "distinct names have distinct (A,B) hash pairs (a 64-bit collision is inherent to the format)", "all entries have locale 0",
+          "no (listfile)/(attributes) in the archive (inner archive fabricated without tables)"]
+H("C06", "mpq", _M, "quick", "C06.a lookup agrees with the abstract map in every valid table state", ["c06a_lookup_agrees_with_model"], _c06f, _c06in,
+  "4-slot table, 4 names, unwind 18", assumes=_c06as, stubs=[FMT, HS, RS], abstraction_stubs=["hash_string"], timeout=900,
+  termination_of=["find_file_entry", "add_to_hash_table"])
+H("C06", "mpq", _M, "quick", "C06.a one real remove / rename / insert step acts on the table as on a plain map, failure leaves it unchanged, invariant preserved, probing terminates",
+  ["c06a_remove_step", "c06a_rename_step", "c06a_insert_step"], _c06f, _c06in, "4-slot table, 4 names, one operation (inductive step), unwind 18",
+  assumes=_c06as + ["insert/rename: the table has at least one free slot (known finding KF-C06-full-table excluded)"], stubs=[FMT, HS, RS],
+  abstraction_stubs=["hash_string"], timeout=900, termination_of=["find_file_entry", "add_to_hash_table"])
+H("C06", "mpq", _M, "quick", "C06.a witness: insertion into a table without a free slot", ["c06a_insert_full_table_witness"], _c06f,
+  "concrete full 4-slot table", "one input, unwind 10", stubs=[FMT, HS, RS], abstraction_stubs=["hash_string"],
+  expect="witness:KF-C06-full-table", termination_of=["add_to_hash_table"])
+H("C06", "mpq", _M, "quick", "canary", ["c06a_canary"], _c06f, "vacuity twin", "-", expect="canary", stubs=[FMT, HS, RS], abstraction_stubs=["hash_string"], timeout=900)
+
+# =============================================================================== C02
+_BL = "verif_kani_builder_layout"
+H("C02", "mpq", _BL, "quick", "C02.a header bytes written == field offsets of the published format (v1..v4), and the real reader recovers the same values",
+  ["c02a_header_layout_v1", "c02a_header_layout_v2", "c02a_header_layout_v3", "c02a_header_layout_v4"],
+  ["builder::ArchiveBuilder::write_header", "header::MpqHeader::read_with_limits", "security::validate_header_security",
+   "header::MpqHeader::{get_hash_table_pos,get_block_table_pos}"],
+  "all HeaderWriteParams fields, sector shift and (v4) sizes/digests symbolic; version concrete per harness",
+  "one header per version",
+  assumes=["v3/v4: HET/BET position order excluded (known finding KF-C02-hetbet-order)"], stubs=[FMT])
+H("C02", "mpq", _BL, "quick", "C02.a witness: v3 header BET/HET order", ["c02a_header_hetbet_order_witness"],
+  ["builder::ArchiveBuilder::write_header", "header::MpqHeader::read_with_limits"], "as c02a_header_layout_v3 without the exclusion", "-",
+  stubs=[FMT], expect="witness:KF-C02-hetbet-order")
+H("C02", "mpq", _BL, "quick", "C02.b hash/block table bytes == published entry layout under the format's cipher and table keys; both directions through the real loaders",
+  ["c02b_hash_table_encoding", "c02b_block_table_encoding", "c02b_reference_tables_load"],
+  ["builder::ArchiveBuilder::write_hash_table", "builder::ArchiveBuilder::write_block_table", "builder::ArchiveBuilder::encrypt_data",
+   "tables::HashTable::from_bytes", "tables::BlockTable::from_bytes", "crypto::hash_string", "crypto::decrypt_block"],
+  "one table entry, all fields symbolic", "1 entry per table (4 cipher words under the concrete table key)",
+  stubs=[FMT, "ArchiveBuilder::calculate_md5 -> zeros (digest values are not the subject)"])
+H("C02", "mpq", _BL, "quick", "C02.c file key == key of the format; flag and method constants == published values (compile-time)",
+  ["c02c_file_key_vs_spec"], ["builder::ArchiveBuilder::calculate_file_key", "crypto::hash_string", "tables::BlockEntry::FLAG_*", "compression::flags::*"],
+  "name: 3 ASCII bytes symbolic, position u64, size u32, flags u32 symbolic", "names of 3 bytes",
+  assumes=["name contains no path separator (known finding KF-C02-key-path excluded)"], stubs=[FMT])
+H("C02", "mpq", _BL, "quick", "C02.c witness: key of a file in a directory", ["c02c_file_key_path_witness"],
+  ["builder::ArchiveBuilder::calculate_file_key"], "concrete name d\\f", "-", stubs=[FMT], expect="witness:KF-C02-key-path")
+H("C02", "mpq", _BL, "quick", "canary", ["c02_canary"], ["builder::ArchiveBuilder::write_header"], "vacuity twin", "-", expect="canary", stubs=[FMT])
+
+# =============================================================================== C10
+_SG = "verif_kani_signature"
+H("C10", "mpq", _SG, "quick", "C10.a weak-signature padding: what the library produces verifies, nothing else verifies, a different digest does not verify",
+  ["c10a_weak_padding_produced_verifies", "c10a_weak_padding_exact", "c10a_weak_padding_other_digest_rejected"],
+  ["crypto::signature::create_pkcs1_v15_padding_md5", "crypto::signature::verify_pkcs1_v15_md5"],
+  "digest [u8; 16] symbolic; decrypted signature block [u8; 64] fully symbolic", "64-byte block (512-bit RSA), unwind 70", stubs=[FMT])
+H("C10", "mpq", _SG, "thorough", "C10.a strong-signature padding is exact", ["c10a_strong_padding_exact"],
+  ["crypto::signature::verify_mpq_strong_signature_padding"], "block [u8; 256] and digest [u8; 20] symbolic", "256-byte block", stubs=[FMT], timeout=1800)
+H("C10", "mpq", _SG, "quick", "C10.b the weak-signature digest is fed exactly the signed range with the signature window zeroed",
+  ["c10b_weak_digest_covers_signed_range"], ["crypto::signature::calculate_mpq_hash_md5", "crypto::signature::SignatureInfo::new_weak"],
+  "24 data bytes symbolic; begin <= end <= 24 and exclusion window [xb, xe) within 24, all symbolic", "archive of 24 bytes (one digest block)",
+  stubs=[FMT, "md5::compress::compress -> tap recording the 64-byte blocks (decides which bytes are covered, never digest values)"], timeout=900)
+H("C10", "mpq", _SG, "quick", "canary", ["c10_sig_canary"], ["crypto::signature::verify_pkcs1_v15_md5"], "vacuity twin", "-", expect="canary", stubs=[FMT])
+
+# =============================================================================== C08
+_P = "verif_kani_patch"
+_R = "verif_kani_rle"
+RLE = "compression::rle::decompress -> returns a prepared bsdiff stream (the RLE decoder is decided separately in C08.c)"
+H("C08", "mpq", _P, "quick", "C08.b never unverified bytes: apply_patch fails when either digest check fails; returned bytes are the ones submitted to the after-check",
+  ["c08b_gate_copy"], ["patch::apply::apply_patch", "patch::apply::apply_copy_patch"],
+  "outcomes of both digest checks symbolic; COPY patch with 3 symbolic payload bytes, 2-byte base", "COPY patch 2 -> 3 bytes",
+  stubs=[FMT, "PatchFile::verify_base / verify_patched -> nondeterministic Ok/Err, recording what verify_patched is shown (abstraction of MD5)"],
+  abstraction_stubs=["verify_base", "verify_patched"])
+H("C08", "mpq", _P, "quick", "C08.a COPY patch: declared sizes are enforced", ["c08a_copy_size_checks"], ["patch::apply::apply_copy_patch"],
+  "declared size_before / size_after u32 symbolic; base 2 bytes, payload 3 bytes", "-", stubs=[FMT])
+H("C08", "mpq", _P, "thorough", "C08.a BSD0: a well-formed bsdiff stream turns old into new", ["c08a_bsd0_wellformed"], ["patch::apply::apply_bsd0_patch"],
+  "old and new file [u8; 4] symbolic; stream built per the bsdiff rule (diff = new - old)", "one control triple, 4-byte files", stubs=[FMT, RLE],
+  abstraction_stubs=["rle::decompress"], timeout=2400)
+H("C08", "mpq", _P, "thorough", "C05.mpq.7 BSD0 applier is total on a hostile bsdiff header", ["c05_bsd0_header_total"], ["patch::apply::apply_bsd0_patch"],
+  "control-block size, data-block size, new size (u64) and declared size_after symbolic", "bsdiff header only (32 bytes), new size <= 8",
+  assumes=["32 + ctrl + data does not overflow u64 (known finding KF-C08-bsd0-overflow excluded)"], stubs=[FMT, RLE],
+  abstraction_stubs=["rle::decompress"], timeout=2400)
+H("C08", "mpq", _P, "thorough", "C08 witness: control-block size 2^64-32", ["c08_bsd0_overflow_witness"], ["patch::apply::apply_bsd0_patch"],
+  "concrete", "-", stubs=[FMT, RLE], abstraction_stubs=["rle::decompress"], expect="witness:KF-C08-bsd0-overflow", timeout=2400)
+H("C08", "mpq", _P, "quick", "C05.mpq.6 patch header parser is total; truncated headers are errors", ["c05_patch_header_total"],
+  ["patch::header::PatchHeader::parse"], "68 bytes symbolic behind the three assigned block signatures, symbolic truncation", "68-byte header", stubs=[FMT])
+H("C08", "mpq", _P, "quick", "canary", ["c08_canary"], ["patch::apply::apply_copy_patch"], "vacuity twin", "-", expect="canary", stubs=[FMT])
+H("C08", "mpq", _R, "quick", "C08.c RLE decoder == reference decoder, output exactly the declared size",
+  ["c08c_rle_n4_s6", "c08c_rle_n6_s8", "c08c_rle_header_n8_s4"], ["compression::algorithms::rle::decompress"],
+  "compressed input [u8; N] fully symbolic", "(N, size) in {(4,6), (6,8), (8 incl. 4-byte header, 4)}", stubs=[FMT], timeout=900)
+H("C08", "mpq", _R, "quick", "canary", ["c08c_rle_canary"], ["compression::algorithms::rle::decompress"], "vacuity twin", "-", expect="canary", stubs=[FMT])
+
+# =============================================================================== C19
+_F = "verif_kani_storm"
+H("C19", "ffi", _F, "quick", "C19.c null handles are reported as errors and nothing is written through the caller's pointers",
+  ["c19c_null_handle_read_seek_size", "c19c_null_handle_close_name_find"],
+  ["SFileReadFile", "SFileSetFilePointer", "SFileGetFileSize", "SFileCloseFile", "SFileCloseArchive", "SFileGetFileName", "SFileFindClose"],
+  "null handle; to_read, seek arguments symbolic; guard-valued output buffers", "one call each", stubs=[FMT])
+H("C19", "ffi", _F, "thorough", "C19.b seek step from any valid open-file state: no panic, position within the file, return value == position",
+  ["c19b_set_file_pointer_step"], ["SFileSetFilePointer"],
+  "file of 4 symbolic bytes, cursor in 0..=4, low/high offsets (i32), presence of the high pointer and move method (u32) symbolic",
+  "one call on one fabricated FILES entry", stubs=[FMT, RS], timeout=2400)
+H("C19", "ffi", _F, "thorough", "C19.a read step: exactly min(to_read, remaining) bytes are copied, nothing beyond them is written, cursor advances",
+  ["c19a_read_step_t2", "c19a_read_step_t4"], ["SFileReadFile"],
+  "file of 3 symbolic bytes, cursor in 0..=3 symbolic, to_read in {2, 4}, 8-byte buffer with guard zone", "one call", stubs=[FMT, RS], timeout=2400)
+H("C19", "ffi", _F, "thorough", "C19.c never-issued and closed handles are errors", ["c19c_stale_handle"], ["SFileReadFile", "SFileCloseFile"],
+  "handle 9 never issued, handle 7 closed before use", "-", stubs=[FMT, RS], timeout=2400)
+H("C19", "ffi", _F, "quick", "canary", ["c19_canary"], ["SFileGetFileSize"], "vacuity twin", "-", expect="canary", stubs=[FMT])
 
 
 # =============================================================================== per-property fragments
